@@ -34,7 +34,8 @@ def rule_pool():
             {"type": "doc", "attrs": {"k": 1}}, {"type": "doc", "attrs": {"k": 2}}, {"type": "*", "attrs": {"k": 1}},
             {"type": "doc", "id": "1", "attrs": {"k": 1}}, {"type": ["img", "doc"], "id": "2"}, {"type": "1"},
             {"type": "1", "id": 1}, {"type": "doc", "attributes": {"k": 1}},
-            {"type": ["doc", "*"]}, {"type": ["*", "img"], "id": "1"}, {"type": ["doc", "*"], "attrs": {"k": 1}}]
+            {"type": ["doc", "*"]}, {"type": ["*", "img"], "id": "1"}, {"type": ["doc", "*"], "attrs": {"k": 1}},
+            {"type": "doc", "attrs": {"k": [1, 2]}}, {"type": "img", "attrs": {"status": ["draft", "review"], "m": {"a": 1}}}]
     conds = [None, False, {"==": [{"attr": "resource.id"}, "1"]}]
     i = 0
     for a in acts:
